@@ -75,7 +75,7 @@ def run(tier, seed):
         items, idx = [], []
         for i, c in enumerate(cases):
             eo = c["engines"][eng]
-            if eo.get("err") or any((o.get("trap") or "") == "exhaust" for o in eo["obs"]): continue
+            if eo.get("err") or not c["store"] or any((o.get("trap") or "") == "exhaust" for o in eo["obs"]): continue
             ev = "; ".join("(%d, %d, %s)" % (e[0], e[1], zl(e[2:])) for e in (eo.get("events") or []))
             mask = "; ".join("true" if b else "false" for b in c["mask"])
             items.append("{| l_case := %s; l_mask := [%s]; l_events := [%s] |}" % (coq_dcase(c, eo), mask, ev)); idx.append(i)
